@@ -457,3 +457,225 @@ Proof.
   - destruct H as (A & B & _). repeat split; auto. apply outcome_expired. rewrite A, N. auto.
   - destruct H as (A & B & C & _ & E & _). split; [|exact E]. apply outcome_got. auto.
 Qed.
+
+(* ------------------------------------------------------------------ 1. the outcome is the first of "reply dispatched" and "expiry passed" *)
+Fixpoint first_reply (d : list (Z * Z * msg)) : option (Z * bool * Z) :=
+  match d with
+  | [] => None
+  | (t, _, Reply e v) :: _ => Some (t, e, v)
+  | _ :: r => first_reply r
+  end.
+Lemma first_reply_app d x : first_reply (d ++ [x]) = match first_reply d with Some s => Some s | None => first_reply [x] end.
+Proof. induction d as [|[[t t'] [e v|n|]] d IH]; cbn [app first_reply]; auto. destruct x as [[? ?] [| |]]; reflexivity. Qed.
+
+Definition chr (tt : timeout) (w : world) : Prop :=
+  ttl (res w) = tt /\
+  match first_reply (g_disp w) with
+  | None => registered w = true /\ ready (res w) = false
+  | Some (t, e, v) => registered w = false /\ t <= now w /\
+      if expired_at tt t then ready (res w) = false
+      else ready (res w) = true /\ is_exc (res w) = e /\ obj (res w) = v /\ g_got w = Some t
+  end.
+
+Lemma chr_run tt acts w : no_set_expiry acts -> chr tt w -> chr tt (run_w w acts).
+Proof.
+  apply (closed_run (chr tt)); unfold chr.
+  - intros w0 t0 H (A & B). cbn. split; [exact A|]. destruct (first_reply (g_disp w0)) as [[[t e] v]|]; [|exact B].
+    destruct B as (B1 & B2 & B3). repeat split; auto. lia.
+  - intros; cbn; auto.
+  - intros w0 m (A & B). pose proof (dispatch_frame w0 m) as (N & _ & _ & _ & T & G).
+    pose proof (dispatch_result w0 m) as R. cbn zeta in *. pose proof (dur_nonneg m) as D.
+    rewrite T, G, first_reply_app. split; [exact A|].
+    destruct (first_reply (g_disp w0)) as [[[t e] v]|].
+    + destruct B as (B1 & B2 & B3). destruct (dispatch_unreg w0 m B1) as (E1 & E2 & _ & E4). rewrite E1, E2, E4, N.
+      repeat split; auto. lia.
+    + destruct B as (B1 & B2). destruct m as [e v|d|]; cbn [first_reply].
+      * rewrite B1 in R. unfold ar_expired in R. rewrite B2, A in R. cbn [negb andb] in R. destruct R as (R0 & R).
+        split; [exact R0|]. split; [lia|]. destruct (expired_at tt (now w0)).
+        -- destruct R as (-> & _). exact B2.
+        -- destruct R as (R1 & R2 & R3 & _ & _ & R6). auto.
+      * destruct R as (-> & _ & -> & _). auto.
+      * destruct R as (-> & _ & -> & _). auto.
+  - intros w0 c (A & B). unfold ar_add_callback. destruct (ready (res w0)) eqn:Y; cbn; rewrite ?Y; auto.
+Qed.
+
+Lemma chr_async_request t sd w : g_disp w = [] -> chr (ttl (res (async_request t sd w))) (async_request t sd w).
+Proof. intros G. unfold chr, async_request. destruct t; cbn; rewrite G; cbn; auto. Qed.
+
+Theorem outcome_first_of_reply_and_expiry tt acts w : no_set_expiry acts -> chr tt w ->
+  let w' := run_w w acts in
+  outcome_of w' = match first_reply (g_disp w') with
+                  | Some (t, e, v) => if expired_at tt t then Expired else Got e v
+                  | None => if expired_at tt (now w') then Expired else Pending
+                  end.
+Proof.
+  intros N C. cbn zeta. destruct (chr_run tt acts w N C) as (A & B). unfold outcome_of. rewrite A.
+  destruct (first_reply (g_disp (run_w w acts))) as [[[t e] v]|].
+  - destruct B as (_ & B2 & B3). destruct (expired_at tt t) eqn:X.
+    + rewrite B3. now rewrite (expired_mono tt t _ B2 X).
+    + destruct B3 as (-> & -> & -> & _). reflexivity.
+  - destruct B as (_ & ->). reflexivity.
+Qed.
+
+(* ------------------------------------------------------------------ 2. callbacks: exactly once, in registration order *)
+Fixpoint cb_ids (acts : list action) : list N :=
+  match acts with [] => [] | AddCb c :: r => c :: cb_ids r | _ :: r => cb_ids r end.
+
+Lemma regs_step w a : g_regs (fst (step w a)) = g_regs w ++ match a with AddCb c => [(c, now w)] | _ => [] end.
+Proof.
+  assert (forall a', (forall c, a' <> AddCb c) -> g_regs (fst (step w a')) = g_regs w) as H.
+  { intros a' NA. apply (closed_step (fun w' => g_regs w' = g_regs w)); auto.
+    - intros w0 m <-. now destruct (dispatch_frame w0 m) as (_ & _ & _ & G & _).
+    - intros c ->. now destruct (NA c).
+  }
+  destruct a; try (rewrite app_nil_r; apply H; discriminate).
+  cbn. unfold ar_add_callback. destruct (ready (res w)); reflexivity.
+Qed.
+Lemma regs_run acts : forall w, map fst (g_regs (run_w w acts)) = map fst (g_regs w) ++ cb_ids acts.
+Proof.
+  unfold run_w. induction acts as [|a rest IH]; intros w; cbn [fold_left cb_ids]; [now rewrite app_nil_r|].
+  rewrite IH, regs_step, map_app, <- app_assoc. destruct a; cbn; rewrite ?app_nil_r; reflexivity.
+Qed.
+
+Theorem callbacks_once_in_order w acts : inv w -> g_regs w = [] ->
+  let w' := run_w w acts in
+  map fst (g_regs w') = cb_ids acts /\
+  match outcome_of w' with
+  | Got _ _ => exists tg, g_got w' = Some tg /\ log w' = cb_times tg (g_regs w') /\ callbacks (res w') = []
+  | _ => log w' = [] /\ callbacks (res w') = cb_ids acts
+  end.
+Proof.
+  intros I G. cbn zeta. pose proof (regs_run acts w) as RR. rewrite G in RR. cbn in RR. split; [exact RR|].
+  destruct (run_w_inv acts w I) as ([_ I2 I3 _] & _). unfold outcome_of.
+  destruct (ready (res (run_w w acts))).
+  - destruct (I3 eq_refl) as (A & tg & B & _ & D). exists tg. auto.
+  - destruct (I2 eq_refl) as (A & B & _). rewrite <- RR. destruct (expired_at _ _); auto.
+Qed.
+
+Lemma cb_times_ids tg regs : map fst (cb_times tg regs) = map fst regs.
+Proof. unfold cb_times. rewrite map_map. reflexivity. Qed.
+
+(* ------------------------------------------------------------------ 3. wait raises exactly at the expiry, later only when busy *)
+Definition last_end (ds : list (Z * Z * msg)) (d : Z) : Z := fold_left (fun _ x => snd (fst x)) ds d.
+Definition disp_ok (t0 tm : Z) (tb : bool) (x : Z * Z * msg) : Prop :=
+  let '(r, e, m) := x in t0 <= r /\ (r < tm \/ (tb = true /\ r = tm)) /\ e = r + dur m.
+
+Lemma wait_loop_exact fuel : forall w,
+  ready (res w) = false -> finite (ttl (res w)) = true ->
+  let tm := tmax (ttl (res w)) in
+  let w' := fst (wait_loop fuel w) in let o := snd (wait_loop fuel w) in
+  exists ds, g_disp w' = g_disp w ++ ds /\ Forall (disp_ok (now w) tm (tie w)) ds /\
+    now w <= last_end ds (now w) /\ last_end ds (now w) <= now w' /\ o <> OHang /\
+    (o = OTimeout -> ready (res w') = false /\ now w' = Z.max (Z.max (now w) tm) (last_end ds (now w))) /\
+    (o = ONone -> ready (res w') = true) /\
+    (o = OFuel -> (fuel <= List.length (queue w))%nat) /\
+    (o = ONone \/ o = OTimeout \/ o = OFuel).
+Proof.
+  induction fuel as [|f IH]; intros w NR F; cbn zeta; cbn [wait_loop]; rewrite NR.
+  - destruct (expired_at (ttl (res w)) (now w)) eqn:X; cbn [fst snd]; exists []; rewrite app_nil_r; cbn [last_end fold_left].
+    + apply expired_at_spec in X as (_ & X). repeat split; auto; try lia; try discriminate.
+    + repeat split; auto; try lia; try discriminate.
+  - destruct (expired_at (ttl (res w)) (now w)) eqn:X.
+    { cbn [fst snd]. exists []. rewrite app_nil_r. cbn [last_end fold_left].
+      apply expired_at_spec in X as (_ & X). repeat split; auto; try lia; try discriminate. }
+    assert (now w < tmax (ttl (res w))) as LT.
+    { destruct (Z.ltb_spec (now w) (tmax (ttl (res w)))); [assumption|].
+      assert (expired_at (ttl (res w)) (now w) = true) by (apply expired_at_spec; split; [exact F|lia]). congruence. }
+    destruct (serve_tt (ttl (res w)) w) as [w1 r] eqn:E.
+    apply serve_spec in E as [(-> & a & m & q & Q & B1 & _ & ->)|[(-> & _ & -> & _)|(-> & F' & _)]]; [| |congruence].
+    + (* a message was received and dispatched *)
+      set (t' := Z.max (now w) a) in *. set (w0 := set_queue (set_now w t') q).
+      pose proof (dispatch_frame w0 m) as (N & Qd & Td & _ & T & G). pose proof (dispatch_result w0 m) as R. cbn zeta in *.
+      pose proof (dur_nonneg m) as D. cbn [now set_queue set_now w0] in N, G.
+      assert (disp_ok (now w) (tmax (ttl (res w))) (tie w) (t', t' + dur m, m)) as OK.
+      { unfold disp_ok. repeat split; [lia|auto]. }
+      destruct (ready (res (dispatch w0 m))) eqn:Y.
+      * (* it made the result ready: the loop ends *)
+        assert (wait_loop f (dispatch w0 m) = (dispatch w0 m, ONone)) as ->.
+        { destruct f; cbn [wait_loop]; now rewrite Y. }
+        cbn [fst snd]. exists [(t', t' + dur m, m)]. rewrite G. cbn [last_end fold_left fst snd].
+        repeat split; auto; try lia; try discriminate.
+      * specialize (IH (dispatch w0 m) Y). rewrite T in IH. cbn [res ttl set_queue set_now w0] in IH. specialize (IH F).
+        cbn zeta in IH. destruct IH as (ds & I1 & I2 & I3 & I4 & I5 & I6 & I7 & I8 & I9).
+        rewrite N, Td in *. cbn [tie set_queue set_now w0] in I2.
+        destruct (wait_loop f (dispatch w0 m)) as [w' o]. cbn [fst snd] in *.
+        exists ((t', t' + dur m, m) :: ds). rewrite I1, G, <- app_assoc. cbn [app last_end fold_left fst snd].
+        fold (last_end ds (t' + dur m)).
+        repeat split; auto; try lia.
+        -- constructor; [exact OK|]. eapply Forall_impl; [|exact I2]. intros [[r e] m']. unfold disp_ok. intros (? & ? & ?). repeat split; auto; lia.
+        -- apply I6; auto.
+        -- destruct (I6 H) as (_ & ->). lia.
+        -- intros H. specialize (I8 H). rewrite Qd in I8. cbn [queue set_queue w0] in I8. rewrite Q. cbn [List.length]. lia.
+    + (* nothing arrived before the deadline: the clock is at the expiry *)
+      set (w1 := set_now w (Z.max (now w) (tmax (ttl (res w))))).
+      assert (wait_loop f w1 = (w1, OTimeout)) as ->.
+      { assert (expired_at (ttl (res w1)) (now w1) = true) as X1 by (apply expired_at_spec; cbn; split; [exact F|lia]).
+        destruct f; cbn [wait_loop]; cbn [res set_now w1]; rewrite NR; cbn [res set_now w1] in X1; now rewrite X1. }
+      cbn [fst snd]. exists []. rewrite app_nil_r. cbn [last_end fold_left now set_now w1 res g_disp].
+      repeat split; auto; try lia; try discriminate.
+Qed.
+
+Lemma last_end_snoc ds x d : last_end (ds ++ [x]) d = snd (fst x).
+Proof. unfold last_end. now rewrite fold_left_app. Qed.
+
+Theorem wait_exact w : ready (res w) = false -> finite (ttl (res w)) = true ->
+  let tm := tmax (ttl (res w)) in
+  let w' := fst (ar_wait w) in let o := snd (ar_wait w) in
+  exists ds, g_disp w' = g_disp w ++ ds /\ Forall (disp_ok (now w) tm (tie w)) ds /\
+    (o = ONone \/ o = OTimeout) /\
+    (o = ONone -> ready (res w') = true) /\
+    (o = OTimeout -> ready (res w') = false /\ tm <= now w' /\ now w' = Z.max (Z.max (now w) tm) (last_end ds (now w))) /\
+    (o = OTimeout -> Z.max (now w) tm < now w' ->
+       exists ds' r d, ds = ds' ++ [(r, now w', Traffic d)] /\ r <= tm /\ now w' = r + Z.of_N d).
+Proof.
+  intros NR F. cbn zeta. unfold ar_wait.
+  destruct (wait_loop_exact (wait_fuel w) w NR F) as (ds & A & B & C & D & E & G & H & I & J). cbn zeta in *.
+  exists ds. split; [exact A|]. split; [exact B|].
+  assert (snd (wait_loop (wait_fuel w) w) <> OFuel) as NF.
+  { intros X. specialize (I X). unfold wait_fuel in I. lia. }
+  split; [destruct J as [|[|]]; auto; contradiction|]. split; [exact H|]. split.
+  - intros X. destruct (G X) as (G1 & G2). repeat split; auto. lia.
+  - intros X L. destruct (G X) as (_ & G2). rewrite G2 in L.
+    destruct ds as [|x ds0] using rev_ind; [cbn in L; lia|]. clear IHds0.
+    rewrite last_end_snoc in *. destruct x as [[r e] m]. cbn [fst snd] in *.
+    apply Forall_app in B as (_ & B). inversion B as [|? ? (B1 & B2 & B3) _]; subst.
+    assert (0 < dur m) as P by lia. destruct m as [| d |]; cbn in P; try lia.
+    exists ds0, r, d. cbn [dur] in *. repeat split; [|lia|lia]. repeat f_equal. lia.
+Qed.
+
+(* with nothing that can be received up to the expiry the waiting thread is never busy: the error is raised exactly at the expiry *)
+Theorem wait_exact_idle w : ready (res w) = false -> finite (ttl (res w)) = true ->
+  let tm := tmax (ttl (res w)) in
+  (match queue w with [] => True | (a, _) :: _ => tm < a \/ (tm = a /\ tie w = false /\ now w < tm) end) ->
+  ar_wait w = (set_now w (Z.max (now w) tm), OTimeout).
+Proof.
+  intros NR F tm HQ. unfold ar_wait, wait_fuel. cbn [wait_loop]. rewrite NR.
+  destruct (expired_at (ttl (res w)) (now w)) eqn:X.
+  { apply expired_at_spec in X as (_ & X). fold tm in X. replace (Z.max (now w) tm) with (now w) by lia. now rewrite set_now_id. }
+  assert (now w < tm) as LT.
+  { destruct (Z.ltb_spec (now w) tm); [assumption|].
+    assert (expired_at (ttl (res w)) (now w) = true) by (apply expired_at_spec; split; [exact F|assumption]). congruence. }
+  destruct (serve_tt (ttl (res w)) w) as [w1 r] eqn:E.
+  apply serve_spec in E as [(-> & a & m & q & Q & B1 & _ & ->)|[(-> & _ & -> & _)|(-> & F' & _)]]; [| |congruence].
+  - exfalso. rewrite Q in HQ. specialize (B1 F LT). fold tm in B1. destruct HQ as [|(? & ? & ?)]; [lia|].
+    destruct B1 as [|(? & ?)]; [lia|congruence].
+  - fold tm. set (w1 := set_now w (Z.max (now w) tm)).
+    assert (expired_at (ttl (res w1)) (now w1) = true) as X1 by (apply expired_at_spec; cbn; split; [exact F|fold tm; lia]).
+    cbn [res set_now w1] in *. destruct (List.length (queue w)); cbn [wait_loop]; cbn [res set_now w1]; now rewrite NR, X1.
+Qed.
+
+(* without a finite expiry wait never raises the timeout error *)
+Lemma wait_loop_never fuel : forall w, finite (ttl (res w)) = false -> snd (wait_loop fuel w) <> OTimeout.
+Proof.
+  induction fuel as [|f IH]; intros w F; cbn [wait_loop];
+    assert (expired_at (ttl (res w)) (now w) = false) as X by (unfold expired_at, timeout_expired; now rewrite F).
+  - destruct (ready (res w)); [cbn; discriminate|]. rewrite X. cbn. discriminate.
+  - destruct (ready (res w)); [cbn; discriminate|]. rewrite X.
+    destruct (serve_tt (ttl (res w)) w) as [w1 r] eqn:E.
+    assert (ttl (res w1) = ttl (res w)) as T.
+    { apply (closed_serve (fun w' => ttl (res w') = ttl (res w)) ) with (3 := E); auto.
+      intros w0 m <-. now destruct (dispatch_frame w0 m) as (_ & _ & _ & _ & T & _). }
+    destruct r; try (apply IH; now rewrite T). cbn. discriminate.
+Qed.
+Theorem wait_never_times_out_without_expiry w : finite (ttl (res w)) = false -> snd (ar_wait w) <> OTimeout.
+Proof. apply wait_loop_never. Qed.
